@@ -89,6 +89,12 @@ var innerDealMutations = map[string]func(d *vss.Deal){
 			d.SecShare = &share.PriShare{I: d.SecShare.I, V: nil}
 		}
 	},
+	// (the session id written into the deal, where kyber computes its own from dealer, verifiers,
+	// commitments and threshold)
+	"foreign-session-id": func(d *vss.Deal) {
+		h := sha256.Sum256([]byte("some other session"))
+		d.SessionID = h[:]
+	},
 	"threshold-zero": func(d *vss.Deal) { d.T = 0 },
 	"threshold-huge": func(d *vss.Deal) { d.T = 1 << 30 },
 	"no-commitments": func(d *vss.Deal) { d.Commitments = nil },
